@@ -17,6 +17,8 @@ import Ajson.Proofs.Lazy2
 import Ajson.Proofs.TreeFacts
 import Ajson.Proofs.ParsedValue
 import Ajson.Model.Read
+import Ajson.Proofs.UnpackCanon
+import Ajson.Proofs.Acyclic
 
 namespace Ajson.Props.C02
 open Ajson Ajson.Heap Ajson.Spec Ajson.Proofs
@@ -235,6 +237,17 @@ example (data : Bytes) (v : STree) (hp : parseRef data = .ok v) :
       (((H.getNumeric (some n)).1.unpack 100 m).1.getNumeric (some n)).2 = (H.getNumeric (some n)).2 := by
   obtain ⟨H, hu, hl⟩ := C02_laziness_invisible data v hp
   exact ⟨H, hu, fun n m => (hl _ ((getNumeric_read H (some n)).trans (unpack_read 100 _ m)) n).1⟩
+
+/-- **`Unpack` assembles exactly the value the tree denotes**: for every accepted text, after ANY reads (`Fills`, Proofs/Fills —
+no matter which nodes were read before, in which order, how often), `Unpack` of any node answers v exactly when the node denotes a
+value (`absVal`, tied to the text position by position by `C02_value_of_*`) whose canonical form — members of every object in key
+order (a Go map has none; the model lists them sorted) — is v. So `Unpack` fails only where the tree has no value: a number literal
+outside the float64 range. -/
+theorem C02_unpack_is_the_value (data : Bytes) (v : STree) (hp : parseRef data = .ok v) :
+    ∃ H, unmarshal data = .ok (H, 0) ∧ ∀ H' : Heap, Proofs.Fills H H' → ∀ (fuel : Nat) (n : Nat), n < H'.size → ∀ w,
+      (H'.unpack fuel n).2 = .ok w ↔ (Proofs.absVal fuel H' n).map Proofs.canon = some w := by
+  obtain ⟨H, hu, hs, _⟩ := Proofs.acyc_unmarshal data v hp
+  exact ⟨H, hu, fun H' F fuel n hn w => Proofs.unpack_iff_value fuel H' n w (hs.of_same F.1) hn⟩
 
 /-- a typed getter on a node of another type reports a wrong-type error and does not touch the heap -/
 theorem C02_wrong_type (h : Heap) (n : Id) :
